@@ -157,6 +157,20 @@ def bounded_cases(ctx: Ctx):
                 if func in ("quantile", "nanquantile"):
                     c["finalize_kwargs"] = {"q": [0.5, [0.25, 0.75]][i % 2]}
                 cases.append(c)
+    # none of the requested labels is present: the all-fill result of a chunked input must still be lazy
+    for func in ("sum", "nanmax", "count", "nanmean", "argmax", "median"):
+        for method in (None, "blockwise", "map-reduce", "cohorts"):
+            for ch in ([[6]], [[2, 2, 2]], [[3, 3]]):
+                i += 1
+                lab = np.array([5, 5, 15, 15, 25, 25])
+                v = np.array([1.0, 3.0, 2.0, -1.0, 0.5, 4.0])
+                c = dict(array=enc(v), by=[enc(lab)], func=func, chunks=ch, method=method, expected_groups=[[105, 115]],
+                         fill_value=-1 if func == "argmax" else (0 if func == "count" else "nan"))
+                if method == "blockwise" and not blockwise_precondition(c):
+                    continue
+                if func == "median" and method in ("map-reduce", "cohorts"):
+                    continue
+                cases.append(c)
     # labels of other kinds (datetime64, timedelta64, strings are refused lazily) discovered at compute time
     for func in ("sum", "nanmax", "count", "nanmean", "first"):
         for pat in gen.sample([p for p in pats if all(x >= 0 for x in p)], 3 if ctx.quick else 10, rng):
